@@ -56,6 +56,7 @@ type Violation struct {
 	ReplayFile string            `json:"replay_file,omitempty"`
 	ReplayNote string            `json:"replay_note,omitempty"`
 	Tier       int               `json:"tier"`
+	Log        []string          `json:"log,omitempty"`
 }
 
 type ObligationSample struct {
@@ -270,7 +271,7 @@ func (ex *Explorer) noteViolation(c *Ctx, key, msg string, m Model) {
 	}
 	in, order := ex.inputsOf(c, m)
 	ex.res.Violations = append(ex.res.Violations, &Violation{Harness: ex.harness, Key: key, Msg: msg, Inputs: in, Order: order,
-		Decisions: append([]int{}, c.trace...), Count: 1, Tier: ex.Tier})
+		Decisions: append([]int{}, c.trace...), Count: 1, Tier: ex.Tier, Log: append([]string{}, c.log...)})
 }
 
 func (ex *Explorer) noteKnown(kf *KnownFinding, c *Ctx, m Model) {
